@@ -389,6 +389,9 @@ def write_evidence(prop, tier, seed, obs, trusted, functions, transformations, r
                    solver_ms, thorough_info, kani_info=None):
     os.makedirs(EVID, exist_ok=True)
     meta = prop_meta(prop)
+    # obligations recorded as known findings are reported separately: they are neither counted nor claimed
+    kf_ids = set(k['obligation'] for k, m in known_hit)
+    obs = [o for o in obs if o['id'] not in kf_ids]
     n = len(obs)
     nd = sum(1 for o in obs if o['discharged'])
     tb = []
